@@ -290,6 +290,8 @@ def layouts_for(nq, rng, tier):
     if nq > 2:
         a = rng.randrange(nq)
         lays.append(("repeated_label", [a, (a + 1) % nq, a]))
+        lays.append(("without_qubit_0", [2, 1] if nq == 3 else [min(nq - 1, 3), 2]))   # the tables still start at qubit 0: pairs below the smallest label count
+        lays.append(("single_middle", [nq // 2]))
     seen, out = set(), []
     for nm, l in lays:
         if tuple(l) not in seen:
